@@ -398,6 +398,50 @@ func main() {
 			r.Distinct("req:" + p.Name() + ":" + req)
 		}
 	}
+	// (5) several detectors sharing a required extractor: every subset of size 2 of the detectors
+	// and the full set, starting from a configuration without extractors -- each required extractor
+	// must end up enabled exactly once
+	checkSet := func(ds []detector.Detector, what string) {
+		r.Evals.Add(1)
+		cfg := &scalibr.ScanConfig{Detectors: ds}
+		if err := cfg.EnableRequiredExtractors(); err != nil {
+			r.Violation("enable-required-extractors:"+what, err.Error(), nil)
+			return
+		}
+		en := map[string]int{}
+		for _, e := range cfg.FilesystemExtractors {
+			en[e.Name()]++
+		}
+		for _, e := range cfg.StandaloneExtractors {
+			en[e.Name()]++
+		}
+		want := map[string]bool{}
+		for _, d := range ds {
+			for _, req := range d.RequiredExtractors() {
+				want[req] = true
+			}
+		}
+		for name, n := range en {
+			if n != 1 || !want[name] {
+				r.Violation("required-extractor-enabled-"+map[bool]string{true: "more-than-once", false: "unrequested"}[want[name]], fmt.Sprintf("%s: %s enabled %d times (required: %v)", what, name, n, want[name]), nil)
+			}
+		}
+		for name := range want {
+			if en[name] == 0 {
+				r.Violation("required-extractor-not-enabled", fmt.Sprintf("%s: %s not enabled", what, name), nil)
+			}
+		}
+		if len(want) > 0 && len(ds) > 1 {
+			r.Distinct("reqset:" + what)
+		}
+	}
+	checkSet(detAll, "all detectors")
+	for i := range detAll {
+		for j := i + 1; j < len(detAll); j++ {
+			checkSet([]detector.Detector{detAll[i], detAll[j]}, detAll[i].Name()+"+"+detAll[j].Name())
+			checkSet([]detector.Detector{detAll[j], detAll[i]}, detAll[j].Name()+"+"+detAll[i].Name())
+		}
+	}
 	r.Assume("the requirement semantics are those written in the comments of plugin/plugin.go (OSUnix = Linux or Mac; Any = don't care)")
-	r.Finish("complete enumeration: 60x60 requirement/capability tuples on a fake plugin; 60 capability tuples x every plugin of el.All/sl.All/dl.All; every key and every ordered pair of keys of the filesystem name table, every key of the other two; every RequiredExtractors entry. distinct = (plugin,verdict,tuple) triples + unsatisfied predicate cells + keys", true)
+	r.Finish("complete enumeration: 60x60 requirement/capability tuples on a fake plugin; 60 capability tuples x every plugin of el.All/sl.All/dl.All; every key and every ordered pair of keys of the filesystem name table, every key of the other two; every RequiredExtractors entry; EnableRequiredExtractors on every ordered pair of detectors and on the full detector set. distinct = (plugin,verdict,tuple) triples + unsatisfied predicate cells + keys", true)
 }
